@@ -30,6 +30,8 @@ type c19Case struct {
 	Data   []byte `json:"data"`
 	// object loader: the id the bytes are stored under and asked for
 	ID string `json:"id,omitempty"`
+	// reflog-tail loader: a line of this many bytes follows Data, then the genuine records of the fixture
+	LongLine int `json:"long_line,omitempty"`
 }
 
 var c19Loaders = []string{"object", "tree", "commit", "index", "head", "branch", "config", "globalconfig", "reflog", "hash", "nullstr"}
@@ -272,6 +274,50 @@ func runC19(c *c19Case) (error, bool) {
 			return nil
 		})
 		return v, lerr == nil && n > 0
+	case "reflog-tail":
+		// arbitrary lines FOLLOWED by the genuine log: positions count from the end, so whatever the reader makes of the
+		// garbage, positions 0..2 are the three genuine records, or the log is refused; anything else is wrong data
+		garbage := append([]byte{}, data...)
+		if c.LongLine > 0 {
+			garbage = append(garbage, bytes.Repeat([]byte("x"), c.LongLine)...)
+		}
+		if len(garbage) > 0 && garbage[len(garbage)-1] != '\n' {
+			garbage = append(garbage, '\n')
+		}
+		whole := append(garbage, f.files["logs/HEAD"]...)
+		os.WriteFile(filepath.Join(f.root, "logs/HEAD"), whole, 0o644)
+		defer f.restore("logs/HEAD")
+		var got []string
+		v, lerr := bounded("NewReflog", len(whole), func() error {
+			hd, e := store.NewHead(f.root)
+			if e != nil {
+				return e
+			}
+			refs, e := store.NewRefs(f.root)
+			if e != nil {
+				return e
+			}
+			rl, e := store.NewReflog(f.root, hd, refs)
+			if e != nil {
+				return e
+			}
+			for i := 0; i < 3; i++ {
+				r, e := rl.GetRecord(i)
+				if e != nil {
+					got = append(got, "error: "+e.Error())
+				} else {
+					got = append(got, r.Hash.String())
+				}
+			}
+			return nil
+		})
+		if v == nil && lerr == nil {
+			want := []string{f.commit2, f.commit2, f.commit1}
+			if fmt.Sprint(got) != fmt.Sprint(want) {
+				return fmt.Errorf("the log ends with three genuine records %v; after %d bytes of other lines in front of them positions 0..2 read %v", want, len(garbage), got), true
+			}
+		}
+		return v, lerr == nil
 	case "hash":
 		var h sha.SHA1
 		v, lerr := bounded("ReadHash", len(data), func() error { var e error; h, e = sha.ReadHash(string(data)); return e })
@@ -461,7 +507,14 @@ func TestC19Random(t *testing.T) {
 		default:
 			data = deflate(rapid.SliceOfN(rapid.Byte(), 0, 60).Draw(rt, "content"))
 		}
-		if err := c19Report(&c19Case{Loader: loader, Data: data}); err != nil {
+		cs := &c19Case{Loader: loader, Data: data}
+		if loader == "reflog" && rapid.IntRange(0, 2).Draw(rt, "asTail") == 0 {
+			cs.Loader = "reflog-tail"
+			if rapid.IntRange(0, 1).Draw(rt, "withLongLine") == 0 {
+				cs.LongLine = []int{4095, 4096, 65535, 65536, 65537, 70000, 1 << 20, 1<<20 + 1, 3 << 20}[rapid.IntRange(0, 8).Draw(rt, "longLine")]
+			}
+		}
+		if err := c19Report(cs); err != nil {
 			rt.Fatalf("%v", err)
 		}
 		if stats.WantSample() && len(data) > 4 {
